@@ -131,6 +131,21 @@ impl Obs {
         }
     }
 
+    /// Take over the violations (and inconclusive notes) of `o`, nothing else.
+    pub fn take_violations(&mut self, o: Obs) {
+        self.violation_count += o.violation_count;
+        for (k, n) in o.violation_sigs {
+            *self.violation_sigs.entry(k).or_insert(0) += n;
+        }
+        for v in o.violations {
+            if self.violations.len() < MAX_VIOLATIONS_KEPT && !self.violations.iter().any(|w| w.signature == v.signature) {
+                self.violations.push(v);
+            }
+        }
+        self.inconclusive.extend(o.inconclusive);
+        self.env_skips.extend(o.env_skips.into_iter().take(1));
+    }
+
     pub fn merge(&mut self, o: Obs) {
         self.evaluations += o.evaluations;
         self.trivial += o.trivial;
@@ -509,6 +524,7 @@ where
     let next = AtomicU64::new(0);
     // C04 and C06 measure per-thread allocation peaks and CPU time around their own calls
     let no_poison = matches!(ctx.prop.as_str(), "C04" | "C06") || std::env::var("VERIF_NO_POISON").is_ok();
+    let no_echo = std::env::var("VERIF_NO_ECHO").is_ok();
     let cap = time_cap_s(ctx.tier);
     let start = ctx.start;
     let results: Vec<Obs> = std::thread::scope(|s| {
@@ -516,6 +532,7 @@ where
             .map(|_| {
                 s.spawn(|| {
                     let mut obs = Obs::new();
+                    let mut previous: Option<u64> = None;
                     loop {
                         let i = next.fetch_add(1, Ordering::Relaxed);
                         if i >= total {
@@ -532,6 +549,24 @@ where
                             obs.count("cases_preceded_by_failing_calls_on_the_same_thread", 1);
                         }
                         f(i, &mut obs);
+                        // History: one case in eight is followed, on the same thread, by a second
+                        // run of the case this thread ran before it (A, B, A).  Every case is judged
+                        // against its own reference model, so the second run of A must pass exactly
+                        // as the first did: anything the library kept from A's first run or from B
+                        // (a cache, a reused buffer, a static) that leaks into it shows as an
+                        // ordinary violation.  Only violations are taken from the second run.
+                        if !no_echo && i % 8 == 5 {
+                            if let Some(p) = previous {
+                                let mut again = Obs::new();
+                                f(p, &mut again);
+                                obs.count("cases_run_a_second_time_after_another_case_on_the_same_thread", 1);
+                                if again.violation_count > 0 && obs.violation_count == 0 {
+                                    obs.count("violations_seen_only_on_a_second_run", again.violation_count);
+                                }
+                                obs.take_violations(again);
+                            }
+                        }
+                        previous = Some(i);
                     }
                     obs
                 })
